@@ -194,7 +194,8 @@ class Ctx:
             if k in self.obs and isinstance(self.obs[k], (int, float)) and isinstance(v, (int, float)) and not isinstance(v, bool):
                 self.obs[k] = self.obs[k] + v
             elif k in self.obs and isinstance(self.obs[k], list) and isinstance(v, list):
-                self.obs[k] = (self.obs[k] + v)[:64]
+                # keys starting with "_" are work lists (popped by the check before finishing)
+                self.obs[k] = (self.obs[k] + v) if k.startswith("_") else (self.obs[k] + v)[:64]
             else:
                 self.obs[k] = v
         for s in p["samples"]:
